@@ -61,3 +61,161 @@ void h_dne_plain_eq(void)
   COVER(a == 0);
   WITNESS_END();
 }
+
+/* ---------------- anonymous components ---------------- */
+#define BEGINS _ZN7abigail11tools_utils18string_begins_withERKNSt7__cxx1112basic_stringIcSt11char_traitsIcESaIcEEES8_
+#define ENDS _ZN7abigail11tools_utils16string_ends_withERKNSt7__cxx1112basic_stringIcSt11char_traitsIcESaIcEEES8_
+#define SUFFIX _ZN7abigail11tools_utils13string_suffixERKNSt7__cxx1112basic_stringIcSt11char_traitsIcESaIcEEES8_RS6_
+#define TRIM _ZN7abigail11tools_utils16trim_white_spaceERKNSt7__cxx1112basic_stringIcSt11char_traitsIcESaIcEEE
+#define SPLIT _ZN7abigail11tools_utils12split_stringERKNSt7__cxx1112basic_stringIcSt11char_traitsIcESaIcEEES8_RSt6vectorIS6_SaIS6_EE
+#define IS_ASCII _ZN7abigail11tools_utils15string_is_asciiERKNSt7__cxx1112basic_stringIcSt11char_traitsIcESaIcEEE
+#define IS_ASCII_ID _ZN7abigail11tools_utils26string_is_ascii_identifierERKNSt7__cxx1112basic_stringIcSt11char_traitsIcESaIcEEE
+
+static const char *anon_prefix(unsigned k)
+{
+  return k == 0 ? "__anonymous_struct__" : k == 1 ? "__anonymous_union__" : "__anonymous_enum__";
+}
+/* name = <anon prefix k><digits d (<=2)>[::m]  built in a heap string (len > 15) */
+static void mk_anon(vstr *s, unsigned k, int with_member)
+{
+  u8 buf[32];
+  const char *p = anon_prefix(k);
+  u64 n = 0;
+  for (; p[n]; n++) buf[n] = (u8)p[n];
+  u64 nd = nondet_u64();
+  __CPROVER_assume(nd <= 2);
+  for (u64 i = 0; i < 2; i++)
+    if (i < nd) { u8 c = nondet_u8(); __CPROVER_assume(c >= '0' && c <= '9'); buf[n++] = c; }
+  if (with_member) { buf[n++] = ':'; buf[n++] = ':'; buf[n++] = 'm'; }
+  vs_make_n(s, buf, n);
+}
+
+void h_dne_anon(void)
+{
+  vstr l, r;
+  init_globals();
+  unsigned kl = nondet_u8(), kr = nondet_u8();
+  __CPROVER_assume(kl < 3 && kr < 3);
+  _Bool mem = nondet_bool();
+  mk_anon(&l, kl, mem);
+  mk_anon(&r, kr, mem);
+  u8 a = DNE(&l, &r);
+  if (kl == kr)
+    PROP(a != 0, "C41-dne-anon-same-kind: anonymous components of the same kind compare equal whatever their numbers");
+  else
+    PROP(a == 0, "C41-dne-anon-diff-kind: anonymous components of different kinds compare different");
+  PROP(a == DNE(&r, &l), "C41-dne-symmetry-anon: symmetric on anonymous names");
+  COVER(kl == kr && !vs_eq(&l, &r));
+  COVER(kl != kr);
+  WITNESS_END();
+}
+
+/* ---------------- prefix / suffix helpers ---------------- */
+static int ref_prefix(vstr *s, vstr *p)
+{
+  if (p->f1 > s->f1) return 0;
+  for (u64 i = 0; i < N; i++) if (i < p->f1 && s->f0.f0[i] != p->f0.f0[i]) return 0;
+  return 1;
+}
+static int ref_suffix(vstr *s, vstr *p)
+{
+  if (p->f1 > s->f1) return 0;
+  u64 off = s->f1 - p->f1;
+  for (u64 i = 0; i < N; i++) if (i < p->f1 && s->f0.f0[off + i] != p->f0.f0[i]) return 0;
+  return 1;
+}
+
+void h_prefix_suffix(void)
+{
+  vstr s, p, out;
+  vs_nondet(&s, N);
+  vs_nondet(&p, N);
+  vs_make(&out, "zz");
+  u8 b = BEGINS(&s, &p);
+  /* documented quirk of the real function: an empty str never "begins with" anything */
+  PROP((b != 0) == (s.f1 != 0 && ref_prefix(&s, &p)), "C41-begins-with: string_begins_with agrees with its definition");
+  u8 e = ENDS(&s, &p);
+  PROP((e != 0) == (ref_suffix(&s, &p) != 0), "C41-ends-with: string_ends_with agrees with its definition");
+  u8 sf = SUFFIX(&s, &p, &out);
+  /* string_suffix: true iff prefix is a proper prefix; then prefix + suffix == input */
+  PROP((sf != 0) == (p.f1 < s.f1 && ref_prefix(&s, &p)), "C41-string-suffix-result: true iff proper prefix");
+  if (sf) {
+    PROP(out.f1 == s.f1 - p.f1, "C41-string-suffix-len: suffix length");
+    for (u64 i = 0; i < N; i++)
+      if (i < out.f1) PROP(out.f0.f0[i] == s.f0.f0[p.f1 + i], "C41-string-suffix-bytes: suffix bytes");
+  } else
+    PROP(vs_eq_lit(&out, "zz"), "C41-string-suffix-untouched: output untouched when false");
+  COVER(b && p.f1 > 0);
+  COVER(e && p.f1 > 0);
+  COVER(sf && p.f1 > 0);
+  WITNESS_END();
+}
+
+/* ---------------- trim_white_space / ascii ---------------- */
+static int is_sp(u8 c) { return c == ' ' || (c >= 9 && c <= 13); }
+void h_trim(void)
+{
+  vstr s, out;
+  vs_nondet(&s, N);
+  TRIM(&out, &s);
+  /* reference: strip leading and trailing white space */
+  u64 n = s.f1, a = 0, b = n;
+  for (u64 i = 0; i < N; i++) if (a == i && i < n && is_sp(s.f0.f0[i])) a = i + 1;
+  for (u64 i = 0; i < N; i++) if (b > a && is_sp(s.f0.f0[b - 1])) b--;
+  PROP(vs_wf(&out), "C41-trim-wf: result is a well-formed string");
+  PROP(out.f1 == b - a, "C41-trim-len: trim_white_space length");
+  for (u64 i = 0; i < N; i++)
+    if (i < out.f1) PROP(out.f0.f0[i] == s.f0.f0[a + i], "C41-trim-bytes: trim_white_space bytes");
+  u8 asc = IS_ASCII(&s), ident = IS_ASCII_ID(&s);
+  int all_ascii = 1, all_id = 1;
+  for (u64 i = 0; i < N; i++)
+    if (i < n) { u8 c = s.f0.f0[i]; if (c > 127) all_ascii = 0; if (c > 127 || c <= 0x1f || c == 0x7f) all_id = 0; }
+  PROP((asc != 0) == all_ascii, "C41-is-ascii: string_is_ascii");
+  PROP((ident != 0) == all_id, "C41-is-ascii-identifier: string_is_ascii_identifier");
+  COVER(a > 0 && b < n && b > a);
+  COVER(!asc);
+  WITNESS_END();
+}
+
+/* ---------------- split_string ---------------- */
+#ifndef NS
+#define NS 4
+#endif
+#ifndef ND
+#define ND 2
+#endif
+void h_split(void)
+{
+  vstr in, delims;
+  vs_nondet(&in, NS);
+  vs_nondet(&delims, ND);
+  void *v = w_vec_new();
+  (void)SPLIT(&in, &delims, v);
+  /* reference: cut at delimiter bytes, strip leading white space of each raw field, drop empty fields */
+  u64 n = in.f1, k = 0;
+  u64 fstart[NS + 1], flen[NS + 1];
+  u64 cur = 0;
+  for (u64 i = 0; i <= NS; i++) {
+    if (i > n) break;
+    int isdelim = 0;
+    if (i < n) for (u64 j = 0; j < ND; j++) if (j < delims.f1 && in.f0.f0[i] == delims.f0.f0[j]) isdelim = 1;
+    if (i == n || isdelim) {
+      u64 a = cur;
+      for (u64 t = 0; t < NS; t++) if (a < i && is_sp(in.f0.f0[a])) a++;
+      if (a < i) { fstart[k] = a; flen[k] = i - a; k++; }
+      cur = i + 1;
+    }
+  }
+  u64 sz = w_vec_size(v);
+  PROP(sz == k, "C41-split-count: split_string returns exactly the non-empty trimmed fields (count)");
+  for (u64 f = 0; f < NS; f++) {
+    if (f < k && f < sz) {
+      vstr *e = w_vec_at(v, f);
+      PROP(e->f1 == flen[f], "C41-split-field-len: field length");
+      for (u64 t = 0; t < NS; t++) if (t < flen[f] && t < e->f1) PROP(e->f0.f0[t] == in.f0.f0[fstart[f] + t], "C41-split-field-bytes: field bytes in order");
+    }
+  }
+  COVER(k == 2);
+  COVER(sz == 2);
+  WITNESS_END();
+}
